@@ -36,6 +36,9 @@ type l5Op struct {
 	// Twin (mkq only): this Query is the very same Go object as Query Twin, to be run a
 	// second time; for the model it is a second Query built at the same moment
 	Twin int `json:"twin,omitempty"`
+	// Fail (run only): the driver fails the execution of this run (the cache protocol is
+	// the same: the statement was prepared and stored before it is executed)
+	Fail bool `json:"fail,omitempty"`
 }
 
 func genL5(r *rng.R) []l5Op {
@@ -91,7 +94,7 @@ func genL5(r *rng.R) []l5Op {
 				shape = r.Pick9()
 			}
 			lastShape = shape
-			add(l5Op{Op: "run", S: liveS[r.Intn(len(liveS))], D: liveD[r.Intn(len(liveD))], Shape: shape})
+			add(l5Op{Op: "run", S: liveS[r.Intn(len(liveS))], D: liveD[r.Intn(len(liveD))], Shape: shape, Fail: r.Chance(1, 6)})
 		case x == 11 && len(liveS) > 0 && len(liveD) > 0 && nQ < 4:
 			// a Query that is built now and run later (handles may be dropped in between)
 			nQ++
@@ -300,7 +303,7 @@ func runL5Case(h []l5Op) (obs *l5Obs) {
 		case "newD":
 			sqldb, st := fakedrv.Open()
 			sqldb.SetMaxOpenConns(1)
-			st.SetScript(fakedrv.Script{Columns: []string{"_sqlair_0", "_sqlair_1"}})
+			st.SetScript(fakedrv.Script{Columns: rowCols})
 			d := sqlair.NewDB(sqldb)
 			dbs = append(dbs, &l5DB{db: d, state: st, id: hookDBID(d)})
 			keep = append(keep, st)
@@ -308,7 +311,13 @@ func runL5Case(h []l5Op) (obs *l5Obs) {
 			ints, strs := l5Args(op.Shape)
 			var rows []Row
 			ctx := context.WithValue(context.Background(), fakedrv.CtxKey{}, fmt.Sprintf("d%d-k%d", op.D, op.Shape))
+			if op.Fail {
+				dbs[op.D-1].state.FailNext("query", inj(2))
+			}
 			err := dbs[op.D-1].db.Query(ctx, stmts[op.S-1], ints, strs).GetAll(&rows)
+			if op.Fail && err != nil && strings.Contains(err.Error(), "INJ2") {
+				err = nil // the scripted failure
+			}
 			if err != nil && errText(err) != "noRows" {
 				obs.Errors = append(obs.Errors, err.Error())
 				if strings.Contains(err.Error(), "statement is closed") {
@@ -438,7 +447,7 @@ func runL5Conc(r *rng.R, threads, perThread int) (obs *l5ConcObs) {
 	for i := range dbs {
 		sqldb, st := fakedrv.Open()
 		sqldb.SetMaxOpenConns(4)
-		st.SetScript(fakedrv.Script{Columns: []string{"_sqlair_0", "_sqlair_1"}, Rows: nil})
+		st.SetScript(fakedrv.Script{Columns: rowCols, Rows: nil})
 		dbs[i] = &dbT{sqlair.NewDB(sqldb), st}
 	}
 	var mu sync.Mutex
@@ -731,7 +740,7 @@ func runL5(args []string) {
 			if err != nil {
 				fatalf("driver: %v", err)
 			}
-			holds := map[string]bool{"C09": getBool(resp, "c09"), "C10": getBool(resp, "c10"), "C11": getBool(resp, "c11"), "C12": getBool(resp, "c12")}
+			holds := map[string]bool{"C09": getBool(resp, "c09"), "C10": getBool(resp, "c10"), "C11": getBool(resp, "c11"), "C12": getBool(resp, "c12"), "C16": getBool(resp, "c16")}
 			for p, ok := range holds {
 				if !ok {
 					obs.Execs = nil
